@@ -172,6 +172,7 @@ func faPool(names, seqs []string) []faRec {
 }
 
 func runC01(r *core.Run) {
+	racePass(r, "race-format-fasta", "the fasta codec: readers each on their own stream (whole and in 7-byte reads, every corpus file), Write on shared records into separate destinations, File on one shared path; every result is compared with what the same call returned when it ran alone")
 	firstCallClause(r, "fasta.")
 	pool := faPool(enum.AllStrings("a>", 2), enum.AllStrings("AC", 3))
 	maxRecs := core.Pick(r, 2, 3)
@@ -336,6 +337,19 @@ func runC01(r *core.Run) {
 			return nil, nil, false, ""
 		}
 		recs := []faRec{{core.S(prefix + "x"), "AC"}, {"b", "G"}}
+		data, fail := writeFastaChecked(recs)
+		return data, wantFasta(recs), true, fail
+	})
+	escapeSpellingsClause(r, "fasta", []string{"name", "seq"}, func(field, v string) ([]byte, []obsItem, bool, string) {
+		if hasDelim(v) || (field == "seq" && strings.Contains(v, ">")) {
+			return nil, nil, false, ""
+		}
+		recs := []faRec{{"first", "AC"}, {"n", "ACGT"}, {"last", "G"}}
+		if field == "name" {
+			recs[1].Name = core.S(v)
+		} else {
+			recs[1].Seq = core.S(v)
+		}
 		data, fail := writeFastaChecked(recs)
 		return data, wantFasta(recs), true, fail
 	})
